@@ -81,6 +81,17 @@ def trigUntyped (_op : Op) (a b : Atom) : Bool :=
   | .uri _, .ua t => decide (strip t ≠ t)
   | _, _ => false
 
+/-! ### calendar consistency of date/time payloads (an input well-formedness condition, not a finding) -/
+
+/-- the redundant `year` field agrees with the timeline: two values whose local years differ by more
+than two are ordered by their instants as by their years (true of every real date/time: a year has
+at least 365 days, a timezone offset at most 14 hours).  The harness only generates such values. -/
+def dtFarOK (x y : DT) : Bool :=
+  (!decide (x.year + 2 < y.year) || decide (x.inst < y.inst)) &&
+  (!decide (y.year + 2 < x.year) || decide (y.inst < x.inst))
+
+def dtConsistent (a b : Atom) : Bool := !(a.isDT && b.isDT) || dtFarOK a.dt b.dt
+
 /-! ### compatibility mode -/
 
 def floatFails (a : Atom) : Bool := match pyFloat a with | .ok _ => false | .error _ => true
